@@ -240,7 +240,10 @@ def load_hdf5(path, meta_only=False):
         # load individual curves
         for akey in h5["analysis"]:
             h5gr = h5["analysis"][akey]
-            if "fit" not in h5gr:
+            if "fit" not in h5gr or "user rate" not in h5gr.attrs:
+                # (The user rate is written after everything else that
+                # is required here; a failed `save_hdf5` leaves a group
+                # without it.)
                 warnings.warn(f"Ignoring incomplete '{akey}'!")
                 continue
             attrs = h5gr.attrs
@@ -387,7 +390,7 @@ def hdf5_rated(h5path, indent):
                 ana = h5["analysis"]
                 dhash = hash_file(indent.path)
                 idd = "{}_{}".format(dhash, indent.enum)
-                if idd in ana:
+                if idd in ana and "user rate" in ana[idd].attrs:
                     is_rated = True
                     rating = ana[idd].attrs["user rate"]
                     comment = ana[idd].attrs["user comment"]
